@@ -2,6 +2,7 @@
 From Coq Require Import ZArith List Bool Lia.
 Import ListNotations.
 From XO Require Import Slots Strides BufOps Types Format Check LayoutProofs Update UpdateProofs UpdateSize UpdateFrame UpdateAt PartExtent.
+From XO Require ObjectsIndependent.
 Open Scope Z_scope.
 
 (* on the value tree: the assigned element becomes the (capacity-preserving) new value, every
@@ -48,6 +49,13 @@ Proof. exact assign_frame_at. Qed.
 Theorem C10_assignment_moves_no_part : forall t v p x v' img, assign t v p x = Some v' -> enc t v = Some img ->
   forall q, part_extent t v' q = part_extent t v q.
 Proof. exact assign_moves_no_part. Qed.
+(* OTHER OBJECTS: a store anywhere inside one object's extent leaves every object whose extent is disjoint from the
+   stored range reading exactly what it read before (any accepted bytes, reference-free types) *)
+Theorem C10_store_into_one_object_leaves_the_others : forall m (objs : list (ObjectsIndependent.obj * val * Z)) woff bs,
+  BufOps.in_range m woff (Z.of_nat (length bs)) ->
+  Forall (fun x => let '(o, v, s) := x in ObjectsIndependent.reads m o v s /\ (snd o + s <= woff \/ woff + len bs <= snd o)) objs ->
+  Forall (fun x => let '(o, v, s) := x in ObjectsIndependent.reads (wr m woff bs) o v s) objs.
+Proof. exact ObjectsIndependent.store_into_one_object_leaves_the_others. Qed.
 Theorem C10_history_sound : forall steps t v size n, check_updates t v size n steps = None -> conforms t v size steps.
 Proof. exact check_updates_sound. Qed.
 
@@ -70,3 +78,4 @@ Print Assumptions C10_extent_kept.
 Print Assumptions C10_frame_of_assignment.
 Print Assumptions C10_frame_of_assignment_positioned.
 Print Assumptions C10_assignment_moves_no_part.
+Print Assumptions C10_store_into_one_object_leaves_the_others.
